@@ -16,7 +16,9 @@ from harness.fpgen import CLS, KINDS, attempt, dump_fp, gen_fp, make_fp, fpm, ra
 
 BITS = [1, 2, 7, 64, 1024, 99999, 100000, 2 ** 20, 2 ** 31 - 1, 2 ** 31, 2 ** 32]
 ROUTES = ["indices", "dense", "sparse", "bitstring", "rdkit", "pickle", "file"]
-EXTS = [".fp.pkl", ".fp.gz", ".fp.bz2", ".fps.gz", ".pkl"]
+# a compression suffix in upper / mixed case is not recognised by the file layer (smart_open matches it case-sensitively): such a
+# name is an ordinary, uncompressed file for both directions and must round-trip like any other
+EXTS = [".fp.pkl", ".fp.gz", ".fp.bz2", ".fps.gz", ".pkl", ".fp.xz", ".FP.GZ", ".fps.Bz2", ".fp.XZ", ".fp.Gz", ".PKL"]
 
 
 @fpheap.with_heap_cases(("repr",), 60, 1500)
